@@ -53,6 +53,16 @@ def unit(rec):
     for D in (10, 50, 200, 500, 2000):
         for dt in (0.1, 0.5, 1, 2, 5, 10):
             cases.append((D, dt, LIN))
+    # requested times just outside / just inside the matcher's tolerance of a grid time, and rounded fractions
+    for D, dt in ((300, 10), (1000, 10), (200, 7), (50, 0.5)):
+        near = []
+        for k in (1, 3, int(D / dt) // 2, int(D / dt) - 1):
+            g = k * dt / D
+            for d in (1.5e-10, 2e-10, 5e-10, 9e-10, 1e-9, 3e-9, 5e-11, 1e-11):
+                near += [g + d, g - d]
+        cases.append((D, dt, sorted({e for e in near if 0 < e < 1}) + [1.0]))
+        cases.append((D, dt, [round(i / 6, 9) for i in range(7)]))
+        cases.append((D, dt, [round(i / 7, 10) for i in range(8)]))
     for D, dt, req in cases:
         tt = _get_target_times(Seq(D), config(req), dt)
         for e in req:
@@ -238,6 +248,79 @@ def e2e_default_times(backend="sv", D=1000, dt=10):
     return 0
 
 
+CLOSE_PAIRS = [
+    # (duration, dt, time of observable A, time of observable B): two requests within the matcher's
+    # tolerance of each other and off the grid -- one request for the matcher
+    (1000, 7, 0.3, 0.1 + 0.2),                 # one rounding error apart
+    (1000, 7, 0.3, 0.3 + 5e-11),               # 5e-11 apart
+    (1000, 7, 0.45, 0.45 + 1e-10 - 1e-13),     # just inside the tolerance
+]
+
+
+def run_two_observables(backend, D, dt, ta, tb):
+    """Occupation requested at [ta], Energy at [tb] -> (target times, {name: stored times}) ; raises what the
+    backend raises"""
+    from native_util import make_sequence_data, patch_pulser_observable
+    patch_pulser_observable()
+    from emu_base.pulser_adapter import _get_target_times
+    from pulser.backend import Energy, Occupation
+    obs = [Occupation(evaluation_times=[ta]), Energy(evaluation_times=[tb])]
+    if backend == "sv":
+        from emu_sv import SVConfig
+        from emu_sv.sv_backend_impl import SVBackendImpl
+        cfg = SVConfig(dt=dt, observables=obs, gpu=False, log_level=1000)
+        tt = _get_target_times(Seq(D), cfg, dt)
+        data = dataclasses.replace(make_sequence_data(n=2, steps=len(tt) - 1), target_times=tt)
+        res = SVBackendImpl(cfg, data)._run()
+    else:
+        from emu_mps import MPSConfig
+        from emu_mps.mps_backend_impl import MPSBackendImpl
+        cfg = MPSConfig(dt=dt, observables=obs, num_gpus_to_use=0, log_level=1000, optimize_qubit_ordering=False)
+        tt = _get_target_times(Seq(D), cfg, dt)
+        data = dataclasses.replace(make_sequence_data(n=2, steps=len(tt) - 1), target_times=tt)
+        impl = None
+        try:
+            impl = MPSBackendImpl(cfg, data)
+            impl.init()
+            while not impl.is_finished():
+                impl.progress()
+            res = impl.results
+        finally:
+            try:
+                os.remove(impl.autosave_file)
+            except Exception:
+                pass
+    return tt, {o.tag: [float(t) for t in stored_times(res, o)] for o in obs}
+
+
+def e2e_close_requests(backend="sv", pairs=None):
+    """Two observables whose evaluation times are within the matcher's tolerance of each other (and off
+    the grid): each must be recorded exactly once (and the run must not raise)."""
+    rc = 0
+    for D, dt, ta, tb in (pairs or CLOSE_PAIRS):
+        what = (f"emu-{backend}, duration={D}, dt={dt}, Occupation at [{ta!r}], Energy at [{tb!r}] "
+                f"(|difference| = {abs(ta - tb):.3g})")
+        try:
+            tt, stored = run_two_observables(backend, D, dt, ta, tb)
+        except Exception as e:
+            from emu_base.pulser_adapter import _get_target_times
+            tt = _get_target_times(Seq(D), config([ta, tb]), dt)
+            near = [t for t in tt if abs(t / tt[-1] - ta) <= 2 * TOL]
+            print(f"REPRODUCED: {what}: {type(e).__name__}: {' '.join(str(e).split())[:200]} "
+                  f"(target times near the requests: {near!r})")
+            rc = 1
+            continue
+        near = [t for t in tt if abs(t / tt[-1] - ta) <= 2 * TOL]
+        bad = {k: v for k, v in stored.items() if len(v) != 1}
+        if bad:
+            print(f"REPRODUCED: {what}: target times {near!r} both match both requests; stored times "
+                  f"{stored!r}: recorded {max(len(v) for v in bad.values())} times for one requested time")
+            rc = 1
+        else:
+            print(f"NOT-REPRODUCED ({what}): target times near the requests {near!r}; stored {stored!r}")
+    return rc
+
+
 def main():
     rec = None
     if len(sys.argv) > 1 and os.path.exists(sys.argv[1]):
@@ -250,14 +333,15 @@ def main():
     elif "_get_target_times" in name and "/fp/" in name:
         parts = [lambda: unit(rec)]
     elif "_get_target_times" in name:
-        parts = [lambda: unit(rec), e2e_sv]
+        parts = [lambda: unit(rec), e2e_sv, lambda: e2e_close_requests("sv"), lambda: e2e_close_requests("mps")]
     elif "MPSBackendImpl" in name:
         parts = [e2e_mps, lambda: e2e_default_times("mps")]
     elif "SVBackendImpl" in name:
         parts = [e2e_sv, lambda: e2e_default_times("sv")]
     else:
         parts = [lambda: unit(rec), e2e_sv, e2e_mps, lambda: e2e_default_times("sv"),
-                 lambda: e2e_default_times("mps")]
+                 lambda: e2e_default_times("mps"), lambda: e2e_close_requests("sv"),
+                 lambda: e2e_close_requests("mps")]
     rc = 0
     for p in parts:
         rc |= p()
